@@ -12,7 +12,7 @@
 #include "read.h"
 
 #define BUFSZ 65536
-#define NRES 6
+#define NRES 7
 #define T_NULL_ 10
 #define T_TXT_ 16
 #define T_CNAME_ 5
@@ -48,6 +48,12 @@ static void fill_residue(int i, unsigned char *tail, size_t n, const unsigned ch
 			"\x07secret1\x07secret2\xc0\x0c\x00\x10\x00\x01\x00\x00\x00\x00\x00\x09\x08tAAAAAAA"
 			"\x00\x0a\x09hsecretxy\x02zz\x00";
 		for (k = 0; k < n; k++) tail[k] = cont[k % (sizeof(cont) - 1)];
+		break;
+	}
+	case 6: {
+		/* small big-endian numbers (10, 20, 30: what the protocol uses as MX/SRV preferences; 1: class IN; short lengths) */
+		static const unsigned char nums[] = "\x00\x0a\x00\x14\x00\x1e\x00\x01\x00\x02\x00\x28";
+		for (k = 0; k < n; k++) tail[k] = nums[k % (sizeof(nums) - 1)];
 		break;
 	}
 	default:
